@@ -170,7 +170,7 @@ def run_case(case, ctx):
         if rng is not None:
             any_range = True
             lo, hi = rng
-            eps = 1e-6 * ax.df
+            eps = max(1e-6 * ax.df, 16 * gen.ulp(ax.fs[-1]))      # the axis itself is only known to an ulp of fmax
             inside = (ax.fs >= lo + ax.df / 2 + eps) & (ax.fs <= hi - ax.df / 2 - eps)
             outside = (ax.fs < lo - ax.df / 2 - eps) | (ax.fs > hi + ax.df / 2 + eps)
             if hi < lo:
